@@ -56,3 +56,12 @@ def fold_sample_init(repo, kind, debug=None, cn_region="REGION", long_reads=Fals
         return "return", None, calls, me, tables
     except Raised as r:
         return "raise", r.kind, calls, me, tables
+    except Unfoldable as e:
+        # the sample object starts without data attributes: one the constructor reads before it (or a collaborator it was to call) has set it
+        # is an AttributeError of the program, not a limit of the analysis
+        import re
+
+        m = re.search(r"attribute (\w+) not in domain object", str(e))
+        if m and m.group(1) not in me.__dict__:
+            return "raise", f"AttributeError ({m.group(1)})", calls, me, tables
+        raise
